@@ -470,14 +470,15 @@ const (
 	hour = int64(time.Hour)
 )
 
-// witnesses are always generated: the known findings and the boundary cases the property text names.
+// witnesses are always generated: the open findings (F9a, F9f), the repaired ones (they must pass the oracle now)
+// and the boundary cases the property text names.
 func witnesses() []scenario {
 	big := 10000 * hour
 	wp := func(w, b int64) params { return params{Window: w, Trusting: big, Block: b, BlockSet: true, Recency: ns} }
 	return []scenario{
-		{Name: "w-default-params-empty-store", Witness: "F8", Gaps0: rep(sec, 9), Adv0: sec, Batch: 1,
+		{Name: "w-default-params-empty-store", Witness: "fixed:F8", Gaps0: rep(sec, 9), Adv0: sec, Batch: 1,
 			Next: fixedSteps(step{P: params{Window: 337 * hour, Trusting: 336 * hour}})},
-		{Name: "w-default-params-old-tail", Witness: "F8", Gaps0: rep(hour, 9), Adv0: sec, Batch: 1, PreTail: 1, PreHead: 5,
+		{Name: "w-default-params-old-tail", Witness: "fixed:F8", Gaps0: rep(hour, 9), Adv0: sec, Batch: 1, PreTail: 1, PreHead: 5,
 			Next: fixedSteps(step{P: params{Window: 2 * hour, Trusting: 336 * hour}})},
 		{Name: "w-tail-above-store-head", Witness: "F9a", Gaps0: rep(10*ns, 199), Adv0: ns, Batch: 1, PreTail: 1, PreHead: 50,
 			Next: fixedSteps(step{P: wp(200*ns, 10*ns)}, step{P: wp(200*ns, 10*ns)})},
@@ -487,17 +488,19 @@ func witnesses() []scenario {
 				step{Grow: rep(sec, 5), P: params{Window: 20 * sec, Trusting: 1000 * sec, Block: sec, BlockSet: true}})},
 		{Name: "w-sync-from-height-above-store-head", Witness: "F9a", Gaps0: rep(sec, 99), Adv0: ns, Batch: 1, PreTail: 1, PreHead: 50,
 			Next: fixedSteps(step{P: params{Window: 337 * hour, From: 80, Trusting: big, Block: sec, BlockSet: true, Recency: ns}})},
-		{Name: "w-halted-chain-wrap", Witness: "F9b", Gaps0: append(rep(sec, 29), 1000*sec), Adv0: ns, Batch: 1, PreTail: 1, PreHead: 30,
+		{Name: "w-halted-chain-wrap", Witness: "fixed:F9b", Gaps0: append(rep(sec, 29), 1000*sec), Adv0: ns, Batch: 1, PreTail: 1, PreHead: 30,
 			Next: fixedSteps(step{P: wp(70*sec, sec)}, step{Grow: rep(sec, 1), P: wp(70*sec, sec)}, step{Grow: rep(sec, 1), P: wp(70*sec, sec)})},
-		{Name: "w-halted-chain-zero", Witness: "F9b", Gaps0: append(rep(sec, 29), 1000*sec), Adv0: ns, Batch: 1, PreTail: 1, PreHead: 30,
+		{Name: "w-halted-chain-zero", Witness: "fixed:F9b", Gaps0: append(rep(sec, 29), 1000*sec), Adv0: ns, Batch: 1, PreTail: 1, PreHead: 30,
 			Next: fixedSteps(step{P: wp(31*sec, sec)})},
-		{Name: "w-fast-blocks", Witness: "F9c", Gaps0: rep(5*ns, 60), Adv0: ns, Batch: 1, PreTail: 1, PreHead: 60,
+		{Name: "w-fast-blocks", Witness: "fixed:F9c", Gaps0: rep(5*ns, 60), Adv0: ns, Batch: 1, PreTail: 1, PreHead: 60,
+			Next: fixedSteps(step{P: wp(100*ns, 10*ns)})},
+		{Name: "w-fast-blocks-estimate-above-store-head", Witness: "fixed:F9c", Gaps0: rep(5*ns, 60), Adv0: ns, Batch: 1, PreTail: 1, PreHead: 50,
 			Next: fixedSteps(step{P: wp(100*ns, 10*ns)})},
 		{Name: "w-exact-blocks-far", Gaps0: rep(10*ns, 60), Adv0: ns, Batch: 1, PreTail: 1, PreHead: 60,
 			Next: fixedSteps(step{P: wp(100*ns, 10*ns)})},
 		{Name: "w-exact-blocks-close", Gaps0: rep(10*ns, 60), Adv0: ns, Batch: 1, PreTail: 45, PreHead: 60,
 			Next: fixedSteps(step{P: wp(100*ns, 10*ns)})},
-		{Name: "w-close-overshoot", Witness: "F9d", Gaps0: []int64{10 * ns, 140 * ns}, Adv0: ns, Batch: 1, PreTail: 1, PreHead: 2,
+		{Name: "w-close-overshoot", Witness: "fixed:F9d", Gaps0: []int64{10 * ns, 140 * ns}, Adv0: ns, Batch: 1, PreTail: 1, PreHead: 2,
 			Next: fixedSteps(step{P: wp(100*ns, ns)})},
 		{Name: "w-down-from-single-header", Witness: "F9f", Gaps0: rep(sec, 69), Adv0: ns, Batch: 1, PreTail: 62, PreHead: 62,
 			Next: fixedSteps(step{P: params{Window: 337 * hour, HashKind: hashAt, HashAt: 61, Trusting: big, Block: sec, BlockSet: true, Recency: ns}},
@@ -506,9 +509,9 @@ func witnesses() []scenario {
 			Next: fixedSteps(step{P: params{Window: 337 * hour, From: 25, Trusting: big, Block: sec, BlockSet: true, Recency: ns}})},
 		{Name: "w-down-64-from-single-header", Gaps0: rep(sec, 99), Adv0: ns, Batch: 1, PreTail: 90, PreHead: 90,
 			Next: fixedSteps(step{P: params{Window: 337 * hour, From: 26, Trusting: big, Block: sec, BlockSet: true, Recency: ns}})},
-		{Name: "w-negative-window", Witness: "F9e", Gaps0: rep(sec, 20), Adv0: ns, Batch: 1, PreTail: 1, PreHead: 20,
+		{Name: "w-negative-window", Witness: "fixed:F9e", Gaps0: rep(sec, 20), Adv0: ns, Batch: 1, PreTail: 1, PreHead: 20,
 			Next: fixedSteps(step{P: wp(-5*sec, sec)})},
-		{Name: "w-negative-blocktime", Witness: "F9e", Gaps0: rep(sec, 20), Adv0: ns, Batch: 1, PreTail: 1, PreHead: 20,
+		{Name: "w-negative-blocktime", Witness: "fixed:F9e", Gaps0: rep(sec, 20), Adv0: ns, Batch: 1, PreTail: 1, PreHead: 20,
 			Next: fixedSteps(step{P: wp(5*sec, -sec)})},
 	}
 }
@@ -689,6 +692,8 @@ func randomScenario(rng *emit.Rand, idx int) scenario {
 			p.Window = 0
 		case r < 6:
 			p.Trusting = -p.Trusting
+		case r < 7:
+			p.Recency = -1
 		}
 		s.P = p
 		return s, true
@@ -753,7 +758,7 @@ func TestC16(t *testing.T) {
 	w.Rule = "one case = one recomputation of the tail through the public API: Start() of a freshly configured Syncer (restart / reconfiguration), or " +
 		"Head() of the Syncer left running by the previous step where that cannot race with the sync loop (new head adjacent to the store head, or local head expired); " +
 		"real sync.Syncer over the real store.Store (in-memory datastore, Append made synchronous) and a scripted getter serving a generated chain, in synctest virtual time; " +
-		"scenarios chain 1-4 such steps on one store while the network chain grows and the clock advances; generators: 13 witness scenarios (always), random scenarios over " +
+		"scenarios chain 1-4 such steps on one store while the network chain grows and the clock advances; generators: 17 witness scenarios (always: open findings F9a/F9f, repaired findings F8/F9b/F9c/F9d/F9e, boundary cases), random scenarios over " +
 		"{exact, fast, slow, halted, jitter, irregular, same-time, unordered} chains x units 1ns..1h x blockTime {unset, 0, unit, 2*unit, unit/2, negative} x window multiples and " +
 		"boundary-aimed windows (tailTimeDiff in {-1,0,1}, {window-1,window,window+1}, expected tail time at a stored header's time +-1) x trusting period (large / small: expiry) x " +
 		"SyncFromHeight / SyncFromHash at positions around tail, head, head+1, network head and beyond x invalid parameter sets; the young-chain boundary of estimateTailHeight; " +
